@@ -543,6 +543,23 @@ def _check_tables(prog: Program, rep: Report):
         ok0 = is_main_ds(inner) and (ds_head is None or _getter(inner) == _getter(ds_head))
     elif t0 is not None and _is_cumsizes_slice(t0):
         ok0 = None
+    elif t0 is not None and t0[0] == "binop" and t0[1] == "+":
+        lp = _list_sum(fa, v0, n0)
+        if len(lp) == 2 and lp[0][0] == "list" and len(lp[0][1]) == 1 and lp[1][0] == "comp":
+            h = lp[0][1][0]
+            if lens(h):
+                ok0 = is_main_ds(h[2][0]) and (ds_head is None or _getter(h[2][0]) == _getter(ds_head))
+            elt = lp[1][2]
+            accumulates = any(x[0] == "call" and x[1][0] == "global" and x[1][1].rsplit(".", 1)[-1] in (
+                "sum", "accumulate", "cumsum") for x in subterms(elt))
+            if not accumulates:
+                rep.bad("G9.offset-table", fi, "offset-step", f"the offsets of the second and later configs are computed by a "
+                        f"comprehension whose element {show(elt)[:100]} depends on a single config only - not a running sum "
+                        f"over all preceding data sources: from the third config on the index ranges overlap earlier ones",
+                        line=fa.line(n0), clause="C05.4")
+            else:
+                rep.unk("G9.offset-table", fi, "offset-step", "offsets built by a comprehension with an accumulation "
+                        "(shape not modelled)", line=fa.line(n0), clause="C05.4")
     rep.decide(ok0, "G9.offset-table", fi, "offset-head", "first offset = len(DS(main_sampler))",
                f"the first offset is {show(t0) if t0 else '?'}, not the length of the main data source: every interleaved "
                f"index resolves to the wrong dataset / sample", line=fa.line(n0), clause="C05.4")
@@ -581,7 +598,7 @@ def _check_tables(prog: Program, rep: Report):
                 ok = False
                 why = f"the offset table is accumulated over {show(it)}, not over self.configs in order"
         rep.decide(ok, "G9.offset-table", fi, "offset-step", why, why, line=fa.line(n), clause="C05.4")
-    else:
+    elif not any(o.construct == "offset-step" for o in rep.obs):
         rep.unk("G9.offset-table", fi, "offset-step", "offset table not built by one initial list + one append loop",
                 line=fa.line(n0), clause="C05.4")
 
